@@ -24,6 +24,7 @@ import seeded as SD          # noqa: E402
 
 VERIF = os.path.dirname(HERE)
 SILENT = os.path.join(VERIF, "silent")
+LIGHT = []      # --light: about half of the quick budget per check
 
 
 def add(src, sid, area):
@@ -77,7 +78,7 @@ def eval_one(sid, tier, workers):
         for p in SD.ALL:
             t0 = time.time()
             r = SD.sh([SD.PY, os.path.join(VERIF, "check.py"), "--property", p, "--tier", tier,
-                       "--no-evidence", "--workers", str(workers)], env=env, timeout=6 * 3600)
+                       "--no-evidence", "--workers", str(workers)] + LIGHT, env=env, timeout=6 * 3600)
             cls = [l.split()[2] for l in r.stdout.splitlines() if l.startswith("violation class")]
             res["checks"][p] = {"exit": r.returncode, "classes": cls[:5],
                                 "wall": round(time.time() - t0, 1)}
@@ -98,7 +99,10 @@ def main():
     ap.add_argument("--tier", default="quick")
     ap.add_argument("--jobs", type=int, default=3)
     ap.add_argument("--workers", type=int, default=5)
+    ap.add_argument("--light", action="store_true")
     a = ap.parse_args()
+    if a.light:
+        LIGHT.extend(["--runs", "800", "--fault-runs", "350", "--strat-scale", "0.5"])
     if a.add:
         return add(a.add, a.id, a.area)
     if a.eval is not None:
